@@ -40,13 +40,24 @@ def drive(rec):
     if k == "spell":
         text = rec["text"]
         routes = [route(lambda: Element[text]), route(lambda: Element.from_string(text))]
-        if rec["sk"] in ("label", "badlong") or (rec["sk"] == "bad" and rec["a"] > 0):
+        if rec["sk"] in ("label", "badlong", "prefixed") or (rec["sk"] == "bad" and rec["a"] > 0):
             routes.append(route(lambda: Element.from_label(text)))
         t["routes"] = routes
     elif k == "int":
         n = rec["n"]
         t["routes"] = [route(lambda: Element[n]), route(lambda: Element.from_atomic_number(n)),
                        route(lambda: Element[np.int64(n)])]
+        # the integer types element arrays come in (crystal.py builds uint8 arrays): same answer whatever the width or sign
+        for ty in (np.uint8, np.int8, np.uint16, np.int16, np.uint32, np.int32, np.uint64):
+            if np.iinfo(ty).min <= n <= np.iinfo(ty).max:
+                t["routes"].append(route(lambda: Element[ty(n)]))
+                t["routes"].append(route(lambda: Element.from_atomic_number(ty(n))))
+        # numbers that are not whole numbers
+        from fractions import Fraction
+        t["fracs"] = []
+        for x in (n + 0.5, n + 0.999, n - 0.25, Fraction(2 * n + 1, 2), np.float64(n) + 0.5):
+            t["fracs"].append(route(lambda: Element.from_atomic_number(x)))
+            t["fracs"].append(route(lambda: Element[x]))
         # the array functions: the number alone and next to a valid one; an answer must be that of the element itself
         t["batch"] = []
         for name, attr in (("cov_radii", "cov"), ("vdw_radii", "vdw"), ("element_names", "name"), ("element_symbols", "symbol")):
@@ -113,7 +124,9 @@ def drive(rec):
         try:
             # fresh objects for every comparison (two carbons, not the same carbon twice)
             for b in range(1, 104):
-                x, y = Element.from_atomic_number(a), Element.from_atomic_number(b)
+                # atomic numbers as they come out of element arrays: plain ints, unsigned and signed numpy scalars
+                ty = (int, np.uint8, np.int64, np.uint16, np.uint64)[(a + b) % 5]
+                x, y = Element.from_atomic_number(ty(a)), Element.from_atomic_number(ty(b))
                 t["lt"].append(bool(x < y)); t["le"].append(bool(x <= y)); t["gt"].append(bool(x > y))
                 t["ge"].append(bool(x >= y)); t["eq"].append(bool(x == y)); t["ne"].append(bool(x != y))
                 t["hasheq"].append(bool(hash(x) == hash(y)))
@@ -123,7 +136,7 @@ def drive(rec):
         zs = rec["zs"]
         t.update(exc="", sorted=[], formula="", formula_sub="", sorted_idx=[])
         try:
-            els = [Element.from_atomic_number(z) for z in zs]
+            els = [Element.from_atomic_number(z) for z in (np.array(zs, dtype=np.uint8) if len(zs) % 2 else zs)]
             t["sorted"] = [int(e.atomic_number) for e in sorted(els)]
             t["formula"] = chemical_formula(els)
             sub = chemical_formula(els, subscript=True)
